@@ -23,6 +23,7 @@ import (
 	"path/filepath"
 	"reflect"
 	"sort"
+	"strconv"
 	"strings"
 	"sync"
 	"time"
@@ -41,24 +42,72 @@ import (
 //	CA files             1 = generated CA 1 followed by fixtures myCA.crt (CA 2)   2 = fixtures/certs/myCA.crt alone
 //	CA ids               1 file CA (generated)  2 fixtures myCA  3 loaded CA  4 CA in the loaded pool  5 the process's system pool
 //	                     (SSL_CERT_FILE points at a generated CA, so that trusting the system pool is observable)
+//	                     6 a second generated CA (the other loaded CA, second member of the larger pool)
+//	tokens (c18Tok)      loaded_ca 1 (printed true) = CA 3, 2 = CA 6;  pool 1 (true) = {4}, 2 = an EMPTY non-nil pool, 3 = {4, 6};
+//	                     callback 1 (true) = callback A, 2 = callback B;  cache 1 (true) = session cache A, 2 = session cache B
+//	server names         arbitrary bytes; the enumerated universe c18Names holds plain names, names with a trailing dot / several
+//	                     dots / a bare dot, upper and mixed case, IP literals, a port, blanks, a wildcard, IDN forms, a NUL byte, a
+//	                     long label. Every pass-through field therefore has at least two distinct non-zero values.
 //
 // The real TLSClientAuth is called on every case; the returned *tls.Config is projected; for the security-relevant rows
 // handshakes are made against in-process TLS servers whose certificates are signed by CA 1, 3, 4, 5, by an unknown CA, and
 // one server that only speaks TLS <= 1.1 and one that speaks TLS <= 1.2.
 type c18In struct {
-	CertFile   int  `json:"cert_file,omitempty"`
-	LoadedCert int  `json:"loaded_cert,omitempty"`
-	KeyFile    int  `json:"key_file,omitempty"`
-	LoadedKey  int  `json:"loaded_key,omitempty"`
-	CAFile     int  `json:"ca_file,omitempty"`
-	LoadedCA   bool `json:"loaded_ca,omitempty"`
-	Pool       bool `json:"pool,omitempty"`
-	ServerName Bs   `json:"server_name,omitempty"`
-	Insecure   bool `json:"insecure,omitempty"`
-	Callback   bool `json:"callback,omitempty"`
-	Tickets    bool `json:"tickets_disabled,omitempty"`
-	Cache      bool `json:"cache,omitempty"`
+	CertFile   int    `json:"cert_file,omitempty"`
+	LoadedCert int    `json:"loaded_cert,omitempty"`
+	KeyFile    int    `json:"key_file,omitempty"`
+	LoadedKey  int    `json:"loaded_key,omitempty"`
+	CAFile     int    `json:"ca_file,omitempty"`
+	LoadedCA   c18Tok `json:"loaded_ca,omitempty"`
+	Pool       c18Tok `json:"pool,omitempty"`
+	ServerName Bs     `json:"server_name,omitempty"`
+	Insecure   bool   `json:"insecure,omitempty"`
+	Callback   c18Tok `json:"callback,omitempty"`
+	Tickets    bool   `json:"tickets_disabled,omitempty"`
+	Cache      c18Tok `json:"cache,omitempty"`
 }
+
+// c18Tok: which of several distinct values an option carries (0 = unset). 1 is written `true` in JSON (the form older
+// replay files use), any other value as a number.
+type c18Tok int
+
+func (t c18Tok) MarshalJSON() ([]byte, error) {
+	if t == 1 {
+		return []byte("true"), nil
+	}
+	return []byte(strconv.Itoa(int(t))), nil
+}
+
+func (t *c18Tok) UnmarshalJSON(b []byte) error {
+	switch s := strings.TrimSpace(string(b)); s {
+	case "true":
+		*t = 1
+	case "false", "null":
+		*t = 0
+	default:
+		n, err := strconv.Atoi(s)
+		if err != nil {
+			return fmt.Errorf("c18: token %q: %v", s, err)
+		}
+		*t = c18Tok(n)
+	}
+	return nil
+}
+
+// c18Names: the enumerated universe of server names (the first three are the names the handshake summary speaks about).
+var c18Names = []string{
+	"", c18Dial, "other.test",
+	c18Dial + ".", "api.example.com.", ".", "..", "c18.test..", ".c18.test", // root label, bare dots, leading dot
+	"C18.TEST", "C18.Test", "Api.Example.COM.", // case
+	"127.0.0.1", "127.0.0.1.", "::1", "[::1]", "c18.test:443", // address literals, port
+	"localhost", "a", "-", "*.c18.test", " c18.test", "c18.test ", "c18.test\n", // single label, wildcard, blanks
+	"xn--bcher-kva.example", "b\xc3\xbccher.example", "c18.test\x00", "\xff\xfe.", // IDN forms, NUL, non-UTF-8
+	"l" + strings.Repeat("o", 70) + "ng.label.c18.test.",
+}
+
+// c18PlainName: the names for which Check_C18.hs_expected (byte equality with the DNS names of the server certificate) is
+// what crypto/x509 does; handshakes are made only with these.
+func c18PlainName(n Bs) bool { return n == "" || n == c18Dial || n == "other.test" }
 
 type c18HS struct {
 	Server int    `json:"server"`
@@ -116,8 +165,9 @@ type c18Mat struct {
 	cas       map[int]*x509.Certificate
 	caBySubj  map[string]int
 	servers   []*c18Server
-	cbA       func([][]byte, [][]*x509.Certificate) error
+	cbA, cbB  func([][]byte, [][]*x509.Certificate) error
 	cacheA    tls.ClientSessionCache
+	cacheB    tls.ClientSessionCache
 	loadCache map[[2]int]bool
 	mu        sync.Mutex
 }
@@ -251,7 +301,7 @@ func c18Material() *c18Mat {
 
 		// certificate authorities
 		caKeys := map[int]crypto.Signer{}
-		for _, id := range []int{1, 3, 4, 5, 0} {
+		for _, id := range []int{1, 3, 4, 5, 6, 0} {
 			c, k := c18NewCA(fmt.Sprintf("c18 CA %d", id))
 			m.cas[id], caKeys[id] = c, k
 		}
@@ -306,9 +356,17 @@ func c18Material() *c18Mat {
 		mk(5, 0, tls.VersionTLS12, tls.VersionTLS13)
 		mk(6, 1, tls.VersionTLS10, tls.VersionTLS11)
 		mk(7, 1, tls.VersionTLS10, tls.VersionTLS12)
+		mk(8, 6, tls.VersionTLS12, tls.VersionTLS13)
 
 		m.cbA = func([][]byte, [][]*x509.Certificate) error { return nil }
+		m.cbB = func(raw [][]byte, _ [][]*x509.Certificate) error { // distinct code, hence a distinct function pointer
+			if len(raw) > 1<<30 {
+				return fmt.Errorf("c18: callback B")
+			}
+			return nil
+		}
 		m.cacheA = tls.NewLRUClientSessionCache(4)
+		m.cacheB = tls.NewLRUClientSessionCache(8)
 		c18M = m
 	})
 	return c18M
@@ -364,24 +422,49 @@ func (m *c18Mat) options(in c18In) client.TLSClientOptions {
 	if in.CAFile != 0 {
 		o.CA = m.caPath[in.CAFile]
 	}
-	if in.LoadedCA {
-		o.LoadedCA = m.cas[3]
+	if in.LoadedCA != 0 {
+		o.LoadedCA = m.cas[c18LoadedCAID(in.LoadedCA)]
 	}
-	if in.Pool {
+	if in.Pool != 0 {
 		p := x509.NewCertPool() // fresh: TLSClientAuth adds to the pool it is given
-		p.AddCert(m.cas[4])
+		for _, id := range c18PoolIDs(in.Pool) {
+			p.AddCert(m.cas[id])
+		}
 		o.LoadedCAPool = p
 	}
 	o.ServerName = string(in.ServerName)
 	o.InsecureSkipVerify = in.Insecure
-	if in.Callback {
+	switch in.Callback {
+	case 1:
 		o.VerifyPeerCertificate = m.cbA
+	case 2:
+		o.VerifyPeerCertificate = m.cbB
 	}
 	o.SessionTicketsDisabled = in.Tickets
-	if in.Cache {
+	switch in.Cache {
+	case 1:
 		o.ClientSessionCache = m.cacheA
+	case 2:
+		o.ClientSessionCache = m.cacheB
 	}
 	return o
+}
+
+func c18LoadedCAID(t c18Tok) int {
+	if t == 2 {
+		return 6
+	}
+	return 3
+}
+
+func c18PoolIDs(t c18Tok) []int {
+	switch t {
+	case 2:
+		return []int{}
+	case 3:
+		return []int{4, 6}
+	}
+	return []int{4}
 }
 
 func c18Valid(in c18In) bool {
@@ -394,7 +477,8 @@ func c18Valid(in c18In) bool {
 		return false
 	}
 	return ok(in.CertFile, 0, 1, 2, 3, 100, 101) && ok(in.LoadedCert, 0, 1, 2, 3) && ok(in.KeyFile, 0, 1, 2, 3, 4, 100, 101) &&
-		ok(in.LoadedKey, 0, 1, 2, 3, 4, 5, 6) && ok(in.CAFile, 0, 1, 2, 100, 101)
+		ok(in.LoadedKey, 0, 1, 2, 3, 4, 5, 6) && ok(in.CAFile, 0, 1, 2, 100, 101) &&
+		ok(int(in.LoadedCA), 0, 1, 2) && ok(int(in.Pool), 0, 1, 2, 3) && ok(int(in.Callback), 0, 1, 2) && ok(int(in.Cache), 0, 1, 2)
 }
 
 type c18 struct{}
@@ -404,12 +488,15 @@ func init() { register(c18{}) }
 func (c18) ID() string        { return "C18" }
 func (c18) CoqModule() string { return "Check_C18" }
 func (c18) Rule() string {
-	return "EXHAUSTIVE full product of the option lattice with real material. quick: certificate file {none, RSA fixture, missing path} x loaded certificate {none, RSA, EC} x " +
+	return "EXHAUSTIVE products over real material. (1) option lattice, quick: certificate file {none, RSA fixture, missing path} x loaded certificate {none, RSA, EC} x " +
 		"key file {none, matching RSA, EC (mismatched), missing path} x loaded key {none, RSA, other RSA (mismatched), EC, Ed25519 (unsupported)} x CA file {none, two-certificate file, missing path} x " +
-		"loaded CA x loaded pool x server name {unset, set} x insecure x callback x tickets-disabled x session cache (69 120 rows). thorough adds Ed25519/garbage certificate and key files, " +
-		"an unmarshalable EC key, a mismatched EC key, a single-certificate and a PEM-free CA file and a non-matching server name (callback/session options all off or all on). " +
-		"Random cases draw from the thorough universe with arbitrary server-name bytes. Handshakes against 7 in-process servers (signed by each CA, by an unknown CA, TLS<=1.1 only, TLS<=1.2) for the rows with " +
-		"default callback/session options and either a representative identity or no verification options. Non-trivial: at least one option set."
+		"loaded CA x loaded pool x server name {unset, set} x insecure x callback x tickets-disabled x session cache (69 120 rows). (2) pass-through values: {no, file, loaded identity} x {system roots, loaded CA} x " +
+		"every server name of a 29-name universe (plain, trailing dot, bare dots, leading dot, upper/mixed case, IPv4/IPv6 literals, port, single label, wildcard, blanks, newline, punycode, UTF-8, NUL, non-UTF-8, 70-byte label) x insecure x " +
+		"callback {none, A, B} x tickets-disabled x session cache {none, A, B}; the carried name is compared byte for byte. (3) root options with several values: CA file {none, two-certificate file, missing} x loaded CA {none, CA 3, CA 6} x " +
+		"pool {none, {4}, empty, {4,6}} x server name x insecure. thorough adds Ed25519/garbage certificate and key files, " +
+		"an unmarshalable EC key, a mismatched EC key, a single-certificate and a PEM-free CA file and a non-matching server name (callback/session options all off or all on), and larger products (2) and (3). " +
+		"Random cases draw from the thorough universe; server names are universe members or random bytes with up to three edits (dots, case, blanks, stray bytes). Handshakes against 8 in-process servers (signed by each CA, by an unknown CA, TLS<=1.1 only, TLS<=1.2) for the rows with " +
+		"default callback/session options, a plain server name and either a representative identity or no verification options. Non-trivial: at least one option set."
 }
 
 func (c18) Decode(raw json.RawMessage) (any, error) {
@@ -423,23 +510,49 @@ func (c18) Decode(raw json.RawMessage) (any, error) {
 	return in, nil
 }
 
-func c18Product(certFiles, loadedCerts, keyFiles, loadedKeys, caFiles []int, names []string, pass [][3]bool) []any {
-	var out []any
-	bools := []bool{false, true}
-	for _, cf := range certFiles {
-		for _, lc := range loadedCerts {
-			for _, kf := range keyFiles {
-				for _, lk := range loadedKeys {
-					for _, ca := range caFiles {
-						for _, lca := range bools {
-							for _, pool := range bools {
-								for _, name := range names {
-									for _, ins := range bools {
-										for _, p := range pass {
-											out = append(out, c18In{CertFile: cf, LoadedCert: lc, KeyFile: kf, LoadedKey: lk, CAFile: ca, LoadedCA: lca,
-												Pool: pool, ServerName: Bs(name), Insecure: ins, Callback: p[0], Tickets: p[1], Cache: p[2]})
-										}
-									}
+// c18Pass: one value of the three opaque pass-through options.
+type c18Pass struct {
+	cb    c18Tok
+	tk    bool
+	cache c18Tok
+}
+
+// c18Dims: one axis list per option; c18Product is their full product.
+type c18Dims struct {
+	certFiles, loadedCerts, keyFiles, loadedKeys, caFiles []int
+	loadedCAs, pools                                      []c18Tok
+	names                                                 []string
+	insecure                                              []bool
+	pass                                                  []c18Pass
+}
+
+// c18IDs: (certificate file, loaded certificate, key file, loaded key) tuples used where the identity is not the axis of interest.
+type c18ID [4]int
+
+func c18Product(d c18Dims, ids []c18ID, out []any, seen map[c18In]bool) []any {
+	if ids == nil {
+		for _, cf := range d.certFiles {
+			for _, lc := range d.loadedCerts {
+				for _, kf := range d.keyFiles {
+					for _, lk := range d.loadedKeys {
+						ids = append(ids, c18ID{cf, lc, kf, lk})
+					}
+				}
+			}
+		}
+	}
+	for _, id := range ids {
+		for _, ca := range d.caFiles {
+			for _, lca := range d.loadedCAs {
+				for _, pool := range d.pools {
+					for _, name := range d.names {
+						for _, ins := range d.insecure {
+							for _, p := range d.pass {
+								in := c18In{CertFile: id[0], LoadedCert: id[1], KeyFile: id[2], LoadedKey: id[3], CAFile: ca, LoadedCA: lca,
+									Pool: pool, ServerName: Bs(name), Insecure: ins, Callback: p.cb, Tickets: p.tk, Cache: p.cache}
+								if !seen[in] {
+									seen[in] = true
+									out = append(out, in)
 								}
 							}
 						}
@@ -451,52 +564,121 @@ func c18Product(certFiles, loadedCerts, keyFiles, loadedKeys, caFiles []int, nam
 	return out
 }
 
-func (c18) Enumerate(tier string) []any {
-	var all [][3]bool
-	for i := 0; i < 8; i++ {
-		all = append(all, [3]bool{i&1 != 0, i&2 != 0, i&4 != 0})
-	}
-	out := c18Product([]int{0, 1, 100}, []int{0, 1, 2}, []int{0, 1, 2, 100}, []int{0, 1, 4, 2, 3}, []int{0, 1, 100},
-		[]string{"", c18Dial}, all)
-	if tier == "thorough" {
-		seen := map[c18In]bool{}
-		for _, x := range out {
-			seen[x.(c18In)] = true
-		}
-		for _, x := range c18Product([]int{0, 1, 2, 3, 100, 101}, []int{0, 1, 2, 3}, []int{0, 1, 2, 3, 4, 100, 101}, []int{0, 1, 2, 3, 4, 5, 6},
-			[]int{0, 1, 2, 100, 101}, []string{"", c18Dial, "other.test"}, [][3]bool{{false, false, false}, {true, true, true}}) {
-			if !seen[x.(c18In)] {
-				out = append(out, x)
+func c18PassAll(toks []c18Tok) []c18Pass {
+	var all []c18Pass
+	for _, cb := range toks {
+		for _, tk := range []bool{false, true} {
+			for _, cache := range toks {
+				all = append(all, c18Pass{cb, tk, cache})
 			}
 		}
 	}
+	return all
+}
+
+func (c18) Enumerate(tier string) []any {
+	bools := []bool{false, true}
+	seen := map[c18In]bool{}
+	// 1. the option lattice: presence/absence of every option with valid, mismatched and unreadable material (69 120 rows)
+	out := c18Product(c18Dims{certFiles: []int{0, 1, 100}, loadedCerts: []int{0, 1, 2}, keyFiles: []int{0, 1, 2, 100}, loadedKeys: []int{0, 1, 4, 2, 3},
+		caFiles: []int{0, 1, 100}, loadedCAs: []c18Tok{0, 1}, pools: []c18Tok{0, 1}, names: []string{"", c18Dial}, insecure: bools,
+		pass: c18PassAll([]c18Tok{0, 1})}, nil, nil, seen)
+	// 2. the pass-through values: every server name of the universe x insecure x {no, A, B} callback x tickets x {no, A, B} cache,
+	//    with no / a file / a loaded identity and with the system roots / a loaded CA
+	ids := []c18ID{{0, 0, 0, 0}, {1, 0, 1, 0}, {0, 2, 0, 2}}
+	lcas := []c18Tok{0, 2}
+	if tier == "thorough" {
+		ids = append(ids, c18ID{0, 1, 0, 1}, c18ID{0, 1, 0, 4}, c18ID{0, 0, 1, 0})
+		lcas = []c18Tok{0, 1, 2}
+	}
+	out = c18Product(c18Dims{caFiles: []int{0}, loadedCAs: lcas, pools: []c18Tok{0}, names: c18Names, insecure: bools,
+		pass: c18PassAll([]c18Tok{0, 1, 2})}, ids, out, seen)
+	// 3. the root options with more than one value each: either loaded CA, an empty / one-member / two-member pool
+	out = c18Product(c18Dims{caFiles: []int{0, 1, 100}, loadedCAs: []c18Tok{0, 1, 2}, pools: []c18Tok{0, 1, 2, 3}, names: []string{"", c18Dial},
+		insecure: bools, pass: []c18Pass{{0, false, 0}, {2, true, 2}}}, []c18ID{{0, 0, 0, 0}, {0, 1, 0, 1}}, out, seen)
+	if tier == "thorough" {
+		out = c18Product(c18Dims{certFiles: []int{0, 1, 2, 3, 100, 101}, loadedCerts: []int{0, 1, 2, 3}, keyFiles: []int{0, 1, 2, 3, 4, 100, 101},
+			loadedKeys: []int{0, 1, 2, 3, 4, 5, 6}, caFiles: []int{0, 1, 2, 100, 101}, loadedCAs: []c18Tok{0, 1}, pools: []c18Tok{0, 1},
+			names: []string{"", c18Dial, "other.test"}, insecure: bools, pass: []c18Pass{{0, false, 0}, {1, true, 1}}}, nil, out, seen)
+		out = c18Product(c18Dims{caFiles: []int{0, 1, 2, 100, 101}, loadedCAs: []c18Tok{0, 1, 2}, pools: []c18Tok{0, 1, 2, 3},
+			names: []string{"", c18Dial, c18Dial + ".", "other.test"}, insecure: bools, pass: []c18Pass{{0, false, 0}, {1, false, 2}, {2, true, 1}}},
+			[]c18ID{{0, 0, 0, 0}, {1, 0, 1, 0}, {0, 2, 0, 2}}, out, seen)
+	}
 	return out
+}
+
+// c18GenName: a server name for the random stream: a member of the universe or random bytes, then up to three edits of the
+// kind a normalising implementation would undo (trailing / leading dot, case, blanks, a stray byte).
+func c18GenName(r *rand.Rand) Bs {
+	var b []byte
+	if r.Intn(4) == 0 {
+		b = make([]byte, 1+r.Intn(12))
+		for j := range b {
+			b[j] = byte(r.Intn(256))
+		}
+	} else {
+		b = []byte(c18Names[1+r.Intn(len(c18Names)-1)])
+	}
+	for n := r.Intn(4); n > 0; n-- {
+		switch r.Intn(8) {
+		case 0:
+			b = append(b, '.')
+		case 1:
+			b = append([]byte{'.'}, b...)
+		case 2:
+			b = bytes.ToUpper(b)
+		case 3:
+			b = bytes.ToLower(b)
+		case 4:
+			if len(b) > 0 {
+				j := r.Intn(len(b))
+				switch c := b[j]; {
+				case 'a' <= c && c <= 'z':
+					b[j] = c - 32
+				case 'A' <= c && c <= 'Z':
+					b[j] = c + 32
+				}
+			}
+		case 5:
+			b = append(b, " \t\r\n"[r.Intn(4)])
+		case 6:
+			b = append([]byte{' '}, b...)
+		default:
+			j := r.Intn(len(b) + 1)
+			b = append(b[:j:j], append([]byte{byte(r.Intn(256))}, b[j:]...)...)
+		}
+	}
+	if len(b) == 0 {
+		b = []byte{'.'}
+	}
+	return Bs(b)
 }
 
 func (c18) Gen(r *rand.Rand, tier string, i int) any {
 	pick := func(xs ...int) int { return xs[r.Intn(len(xs))] }
 	in := c18In{CertFile: pick(0, 0, 1, 2, 3, 100, 101), LoadedCert: pick(0, 0, 1, 2, 3), KeyFile: pick(0, 0, 1, 2, 3, 4, 100, 101),
-		LoadedKey: pick(0, 0, 1, 2, 3, 4, 5, 6), CAFile: pick(0, 0, 1, 2, 100, 101), LoadedCA: r.Intn(2) == 0, Pool: r.Intn(2) == 0,
-		Insecure: r.Intn(2) == 0, Callback: r.Intn(2) == 0, Tickets: r.Intn(2) == 0, Cache: r.Intn(2) == 0}
-	switch r.Intn(4) {
+		LoadedKey: pick(0, 0, 1, 2, 3, 4, 5, 6), CAFile: pick(0, 0, 1, 2, 100, 101), LoadedCA: c18Tok(pick(0, 0, 1, 2)), Pool: c18Tok(pick(0, 0, 1, 2, 3)),
+		Insecure: r.Intn(2) == 0, Callback: c18Tok(pick(0, 1, 2)), Tickets: r.Intn(2) == 0, Cache: c18Tok(pick(0, 1, 2))}
+	if i%2 == 1 { // every other random case yields a configuration rather than (mostly) an identity error
+		in.CertFile, in.KeyFile, in.LoadedCert, in.LoadedKey = 0, 0, pick(0, 1, 2), 0
+		in.LoadedKey = in.LoadedCert
+		if in.CAFile >= 100 {
+			in.CAFile = pick(0, 1, 2)
+		}
+	}
+	switch r.Intn(5) {
 	case 0:
 	case 1:
 		in.ServerName = c18Dial
-	case 2:
-		in.ServerName = "other.test"
 	default:
-		b := make([]byte, 1+r.Intn(12))
-		for j := range b {
-			b[j] = byte(r.Intn(256))
-		}
-		in.ServerName = Bs(b)
+		in.ServerName = c18GenName(r)
 	}
 	return in
 }
 
 // c18WantHS: rows on which handshakes are made.
 func c18WantHS(in c18In) bool {
-	if in.Callback || in.Tickets || in.Cache {
+	if in.Callback != 0 || in.Tickets || in.Cache != 0 || !c18PlainName(in.ServerName) {
 		return false
 	}
 	id := [4]int{in.CertFile, in.LoadedCert, in.KeyFile, in.LoadedKey}
@@ -504,7 +686,7 @@ func c18WantHS(in c18In) bool {
 	case [4]int{0, 0, 0, 0}, [4]int{1, 0, 1, 0}, [4]int{0, 1, 0, 1}, [4]int{0, 2, 0, 2}, [4]int{0, 0, 1, 0}:
 		return true
 	}
-	return in.CAFile == 0 && !in.LoadedCA && !in.Pool && in.ServerName == "" && in.Insecure
+	return in.CAFile == 0 && in.LoadedCA == 0 && in.Pool == 0 && in.ServerName == "" && in.Insecure
 }
 
 func (m *c18Mat) handshake(cfg *tls.Config, s *c18Server) c18HS {
@@ -639,15 +821,21 @@ func (c18) Run(inAny any) any {
 		}
 		if cfg.VerifyPeerCertificate != nil {
 			obs.Callback = 9
-			if reflect.ValueOf(cfg.VerifyPeerCertificate).Pointer() == reflect.ValueOf(m.cbA).Pointer() {
+			switch reflect.ValueOf(cfg.VerifyPeerCertificate).Pointer() {
+			case reflect.ValueOf(m.cbA).Pointer():
 				obs.Callback = 1
+			case reflect.ValueOf(m.cbB).Pointer():
+				obs.Callback = 2
 			}
 		}
 		obs.Tickets = cfg.SessionTicketsDisabled
 		if cfg.ClientSessionCache != nil {
 			obs.Cache = 9
-			if cfg.ClientSessionCache == m.cacheA {
+			switch cfg.ClientSessionCache {
+			case m.cacheA:
 				obs.Cache = 1
+			case m.cacheB:
+				obs.Cache = 2
 			}
 		}
 		obs.RestZero = cfg.MaxVersion == 0 && cfg.CipherSuites == nil && cfg.VerifyConnection == nil && cfg.GetClientCertificate == nil &&
@@ -701,8 +889,9 @@ func (c18) Coq(inAny any, obsAny any) string {
 	}
 	o := fmt.Sprintf("(mkOpts %s %s %s %s %s %s %s %s %s %s %s %s)",
 		c18OptNat(in.CertFile != 0, in.CertFile), c18OptNat(in.LoadedCert != 0, in.LoadedCert), c18OptNat(in.KeyFile != 0, in.KeyFile), lk,
-		c18OptNat(in.CAFile != 0, in.CAFile), c18OptNat(in.LoadedCA, 3), coqOpt(in.Pool, "[4]"), coqBytes(string(in.ServerName)),
-		coqBool(in.Insecure), c18OptNat(in.Callback, 1), coqBool(in.Tickets), c18OptNat(in.Cache, 1))
+		c18OptNat(in.CAFile != 0, in.CAFile), c18OptNat(in.LoadedCA != 0, c18LoadedCAID(in.LoadedCA)), coqOpt(in.Pool != 0, c18Ints(c18PoolIDs(in.Pool))),
+		coqBytes(string(in.ServerName)), coqBool(in.Insecure), c18OptNat(in.Callback != 0, int(in.Callback)), coqBool(in.Tickets),
+		c18OptNat(in.Cache != 0, int(in.Cache)))
 	caRead := "None"
 	if in.CAFile != 0 && !obs.CAReadErr {
 		caRead = "(Some " + c18Ints(obs.CARead) + ")"
@@ -755,11 +944,11 @@ func (c18) Category(inAny any, obsAny any) (string, bool) {
 	}
 	var ca string
 	switch {
-	case in.LoadedCA:
+	case in.LoadedCA != 0:
 		ca = "loaded-ca"
 	case in.CAFile != 0:
 		ca = "ca-file"
-	case in.Pool:
+	case in.Pool != 0:
 		ca = "pool"
 	default:
 		ca = "system"
@@ -773,6 +962,16 @@ func (c18) Category(inAny any, obsAny any) (string, bool) {
 	case len(obs.HS) > 0:
 		out = "config+handshakes"
 	}
+	name := ""
+	switch {
+	case in.ServerName == "":
+	case c18PlainName(in.ServerName):
+		name = "/name"
+	case strings.HasSuffix(string(in.ServerName), "."):
+		name = "/name-trailing-dot"
+	default:
+		name = "/name-unusual"
+	}
 	nontrivial := in != c18In{}
-	return id + "/" + ca + "/" + out, nontrivial
+	return id + "/" + ca + "/" + out + name, nontrivial
 }
